@@ -6,10 +6,12 @@ import ir
 PRIMS = ['String', 'Char', 'I8', 'I16', 'I32', 'U8', 'U16', 'U32', 'Bool', 'F32', 'F64', 'I54', 'U53', 'Unit']
 FIELD_NAMES = ['id', 'name', 'user_id', 'created_at', 'value', 'items', 'count', 'kind', 'data', 'flag', 'x', 'y', 'address_line1',
                'type', 'class', 'default', 'func', 'let', 'var', 'in', 'is', 'from', 'import', 'object', 'val', 'self', 'None', 'package']
-TYPE_NAMES = ['Foo', 'Bar', 'Baz', 'Item', 'UserId', 'Config', 'Point', 'Wrapper', 'Node', 'Color', 'Shape', 'Event', 'Payload', 'Options']
+TYPE_NAMES = ['Foo', 'Bar', 'Baz', 'Item', 'UserId', 'Config', 'Point', 'Wrapper', 'Node', 'Color', 'Shape', 'Event', 'Payload', 'Options', 'Type']
 VARIANT_NAMES = ['A', 'B', 'Red', 'GreenLight', 'Unit', 'Some', 'None', 'Ok', 'Type', 'V1', 'Http2', 'AddressLine1', 'URL', 'Foo_Bar', '3D']
 GENERICS = ['T', 'U', 'K', 'V']
-COMMENTS = ['A comment', 'second line', 'with "quotes"', "it's", 'unicode é', 'trailing \\', 'has `ticks`', '']
+COMMENTS = ['A comment', 'second line', 'with "quotes"', "it's", 'unicode é', 'trailing \\', 'has `ticks`', '', 'trailing blanks \t ']
+SWIFT_DECORATORS = ['Equatable', 'Hashable', 'Identifiable', 'Sendable', 'Codable', 'String']
+SWIFT_GENERIC_CONSTRAINTS = ['T: Equatable & Hashable', 'T: Sendable', 'U:Hashable&Codable', 'T', 'K : Comparable', 'V: A: B & ']
 
 
 class Gen:
@@ -80,11 +82,11 @@ class Gen:
         r = self.rng
         out = []
         if r.random() < self.edge:
-            out.append(['Swift', sorted(set(r.sample(['Equatable', 'Hashable', 'Identifiable', 'Sendable'], r.randint(1, 2))))])
+            out.append(['Swift', sorted(set(r.sample(SWIFT_DECORATORS, r.randint(1, 2))))])
         if r.random() < self.edge / 2:
             out.append(['Kotlin', ['JvmInline']])
         if r.random() < self.edge / 2:
-            out.append(['SwiftGenericConstraints', ['T: Equatable & Hashable']])
+            out.append(['SwiftGenericConstraints', sorted(set(r.sample(SWIFT_GENERIC_CONSTRAINTS, r.randint(1, 2))))])
         out.sort()
         return out
 
